@@ -4,7 +4,6 @@ import (
 	"fmt"
 	"math"
 	"math/big"
-	"os"
 
 	"github.com/tuneinsight/lattigo/v6/core/rlwe"
 	"github.com/tuneinsight/lattigo/v6/ring"
@@ -35,20 +34,20 @@ type precCombo struct {
 
 func ckksCases(tier string, seed int64) []eng.Case {
 	r := eng.NewRand("c07-ckks-cases", seed)
-	logNs := []int{4, 5, 6, 7, 8}
+	logNs := []int{4, 5, 6, 7, 8, 9}
 	combos := []precCombo{{30, 0}, {45, 0}, {53, 0}, {54, 0}, {60, 0}, {90, 0}, {120, 0}, {40, 128}, {45, 256}, {30, 64}}
-	per := 5
+	per, variants := 8, 1
 	if tier == "thorough" {
 		logNs = []int{4, 5, 6, 7, 8, 9, 10}
-		per = 10
+		per, variants = 10, 3
 	}
 	var out []eng.Case
 	seen := map[string]bool{}
 	for _, rt := range []string{"std", "ci"} {
 		for _, logN := range logNs {
 			perm := r.Perm(len(combos))
-			for _, ci := range perm[:per] {
-				cb := combos[ci]
+			for vi := 0; vi < per*variants; vi++ {
+				cb := combos[perm[vi%per]]
 				nth := uint64(2) << logN
 				if rt == "ci" {
 					nth <<= 1
@@ -77,7 +76,7 @@ func ckksCases(tier string, seed int64) []eng.Case {
 					continue
 				}
 				cfg := ckksCfg{Ring: rt, LogN: logN, Q: q, P: p, QBits: qbits, LogScale: cb.logScale, Prec: cb.prec}
-				id := fmt.Sprintf("ckks/%s/logN%d/q%v/p%v/scale%d/prec%d", rt, logN, qbits, pbits, cb.logScale, cb.prec)
+				id := fmt.Sprintf("ckks/%s/logN%d/q%v/p%v/scale%d/prec%d/v%d", rt, logN, qbits, pbits, cb.logScale, cb.prec, vi/per)
 				if seen[id] {
 					continue
 				}
@@ -363,13 +362,14 @@ func errAt(gr, gi, wr, wi *big.Float, realOnly bool) float64 {
 }
 
 // bound is the worst-case distance between an input slot value and its decoded value: rounding of
-// every real coefficient to an integer (error <= 1 unit each, propagated through the n-term
-// embedding sum) plus the floating-point error of an n-point inverse and forward FFT at p bits.
+// every real coefficient to the nearest integer (error <= 1/2 unit each, propagated through the
+// n-term embedding sum) plus the floating-point error of an n-point inverse and forward FFT at p bits.
 func (e *ckksEnv) bound(logSlots int, scale float64, M float64, pout uint) float64 {
 	n := float64(int(1) << logSlots)
-	k := 1.5
+	// std: |sum_j (r_j + i r_{j+n}) w^j| <= n*sqrt(2)*0.5; ci: |r_0 + 2 sum_j r_j cos| <= (2n-1)*0.5
+	k := 0.7072
 	if e.ci {
-		k = 2
+		k = 1
 	}
 	p := e.prec
 	if pout < p {
@@ -451,7 +451,7 @@ func runCKKS(c *eng.Ctx, cfg ckksCfg) {
 
 	maxL := params.MaxLevel()
 	levels := []int{}
-	if maxL <= 2 {
+	if maxL <= 2 || c.Tier == "thorough" {
 		for l := 0; l <= maxL; l++ {
 			levels = append(levels, l)
 		}
@@ -464,7 +464,11 @@ func runCKKS(c *eng.Ctx, cfg ckksCfg) {
 		reused := ckks.NewPlaintext(params, level)
 		for logSlots := e.maxLogSlots; logSlots >= 0; logSlots-- {
 			for _, isNTT := range []bool{true, false} {
-				for rep := 0; rep < 2; rep++ {
+				reps := 3
+				if c.Tier == "thorough" {
+					reps = 5
+				}
+				for rep := 0; rep < reps; rep++ {
 					iter++
 					e.slotCase(level, logSlots, isNTT, iter, reused)
 				}
@@ -781,11 +785,8 @@ func (e *ckksEnv) decodeCheck(pt *rlwe.Plaintext, s sub, truth cvec, M, sf float
 				worst, wi = er, i
 			}
 		}
-		if worst <= B {
+		if worst <= B && d.logprec == 0 {
 			c.Max("max_ckks_decode_err_over_bound_x1000_"+e.pathTag, int64(1000*worst/B))
-			if os.Getenv("C07_DEBUG") != "" && worst > 0.2*B {
-				fmt.Fprintf(os.Stderr, "RATIO %.3f %s logprec=%v\n", worst/B, desc(), d.logprec)
-			}
 		}
 		if !(worst <= B) {
 			c.Violate("C07|"+api+"|wrong-value|"+cls, desc()+fmt.Sprintf(": logprec=%v out len %d: slot %d is off by %.4g, bound %.4g", d.logprec, d.outLen, wi, worst, B), e.cfg)
@@ -1040,7 +1041,7 @@ func (e *ckksEnv) coeffCases(level int) {
 			if pout < p {
 				p = pout
 			}
-			return (1.0/sf + math.Ldexp(ax, -(int(p)-3))) * 1.01
+			return (0.5/sf)*(1+1e-9) + math.Ldexp(ax, -(int(p)-3))*1.01
 		}
 		coef, _, _, _ := polyCoeffs(rQ, pt.Value, isNTT, false, N, &scale.Value, e.mprec)
 		c.Eval(1)
